@@ -212,6 +212,44 @@ def relations_event(darsia, rng, tid):
 EMD_SHARED = {}
 
 
+def emd_dense_event(darsia, rng, tid):
+    """OpenCV back-end on dense pairs: mass integrals moved over physical distances - the optimum of the transport LP between the
+    cell centres (supplies = pixel value x voxel volume), computed by the harness with scipy (E4 observable)."""
+    import scipy.optimize
+    H, W = rng.choice([(2, 3), (3, 3), (3, 4), (2, 2)])
+    hs = [rng.choice([1.0, 0.5, 2.0]), rng.choice([1.0, 0.25, 3.0])]
+    a1 = np.array([rng.randint(0, 4) for _ in range(H * W)], dtype=float).reshape(H, W)
+    a2 = np.array([rng.randint(0, 4) for _ in range(H * W)], dtype=float).reshape(H, W)
+    if a1.sum() == 0:
+        a1[0, 0] = 2.0
+    if a2.sum() == 0:
+        a2[-1, -1] = 2.0
+    a2 *= a1.sum() / a2.sum()
+    e = {"tid": tid, "op": "emd", "shape": [H, W], "raised": 0, "d6": 0, "swap6": 0, "scaled6": 0, "expected6": 0, "dense": 1}
+    try:
+        img1, img2 = make_images(darsia, (H, W), hs, a1, a2)
+        s1, s2 = make_images(darsia, (H, W), hs, 2 * a1, 2 * a2)
+        emd = EMD_SHARED.setdefault("emd", darsia.EMD())
+        e["d6"] = d6(darsia.wasserstein_distance(img1, img2, method="cv2.emd"))
+        e["swap6"] = d6(emd(img2, img1))
+        e["scaled6"] = d6(emd(s1, s2))
+        vol = hs[0] * hs[1]
+        idx = [(i, j) for i in range(H) for j in range(W)]
+        n = len(idx)
+        cost = np.array([[np.hypot((p[0] - q[0]) * hs[0], (p[1] - q[1]) * hs[1]) for q in idx] for p in idx]).ravel()
+        A = np.zeros((2 * n, n * n))
+        for k in range(n):
+            A[k, k * n:(k + 1) * n] = 1.0          # everything leaving cell k
+            A[n + k, k::n] = 1.0                    # everything arriving at cell k
+        b = np.concatenate([vol * a1.ravel(), vol * a2.ravel()])
+        lp = scipy.optimize.linprog(cost, A_eq=A, b_eq=b, bounds=(0, None), method="highs")
+        e["expected6"] = d6(float(lp.fun)) if lp.status == 0 else -1
+    except Exception as ex:  # noqa
+        e["raised"] = 1
+        e["error"] = repr(ex)[:160]
+    return e
+
+
 def emd_event(darsia, rng, tid):
     H, W = rng.choice([(3, 4), (3, 4), (2, 5), (4, 4), (rng.randint(2, 5), rng.randint(2, 5))])   # shapes recur with other voxel sizes
     hs = [rng.choice([1.0, 0.5, 2.0]), rng.choice([1.0, 0.25, 3.0])]
@@ -269,6 +307,8 @@ def run(ck, replay=None):
         events.append(relations_event(darsia, rng, f"rel:{i}"))
     for i in range(16 if quick else 150):
         events.append(emd_event(darsia, rng, f"emd:{i}"))
+    for i in range(8 if quick else 100):
+        events.append(emd_dense_event(darsia, rng, f"emddense:{i}"))
     bad = ck.validate("Trace_TransportCost", "Trace.cfg", events, chunk=500)
     for b in bad:
         e = b["event"]
